@@ -510,6 +510,11 @@ func Run(c *common.Ctx) error {
 	if err := retentionOff(c); err != nil {
 		return err
 	}
+	for i := 0; i < 2; i++ {
+		if err := forwardedLostAck(c, i); err != nil {
+			return err
+		}
+	}
 	for i := 0; i < c.Pick(1, 3); i++ {
 		if err := multiDB(c, i); err != nil {
 			return err
